@@ -773,7 +773,7 @@ def gen_c09_http(rng, tier, mult=1, include_abort=False):
 def gen_c10_http(rng, tier, mult=1):
     """handler lists with accept tables, IPv4 and IPv6 clients, metadata seen by the handler"""
     n = (400 if tier == "quick" else 6000) * mult
-    uris = ["/", "/a", "/b", "/a?x=1", "/A", "/a/", "/%61", "/caf\xe9", "//a"]
+    uris = ["/", "/a", "/b", "/a?x=1", "/A", "/a/", "/%61", "/caf\xe9", "//a", "/a..b", "/a?r=1..5", "/a/../b", "/..."]
     for i in range(n):
         k = rng.choice([0, 1, 2, 2, 3, 4])
         hs = []
